@@ -994,6 +994,8 @@ QUICK_CFGS = [
     dict(surface="Hill", hardening="Linear"), dict(surface="Hill", hardening="Voce", kinematic="AF"), dict(surface="DruckerPrager", hardening="Linear"),
     dict(surface="VonMises", hardening="Linear", rate="Norton"), dict(surface="VonMises", hardening="Voce", kinematic="AF", rate="Perzyna"),
     dict(branches=1), dict(surface="VonMises", hardening="Linear", branches=2), dict(surface="VonMises", kinematic="Prager", branches=1), dict(surface="Hill", hardening="Swift", kinematic="AF", branches=1), dict(surface="VonMises", hardening="Linear", kinematic="AF", branches=1, rate="Norton"),
+    # several back-stresses together with Maxwell branches: every block of the local Jacobian (back-strain rows x branch columns, per component) is exercised
+    dict(surface="VonMises", hardening="Linear", kinematic="Chaboche", branches=1), dict(surface="Hill", hardening="Voce", kinematic="Chaboche", branches=2, rate="Norton"),
     dict(surface="VonMises", hardening="Linear", dim=2), dict(surface="VonMises", hardening="Linear", dim=2, planeStress=True),
     dict(surface="VonMises", hardening="Voce", kinematic="AF", dim=2, planeStress=True), dict(surface="Hill", hardening="Linear", dim=2, planeStress=True),
     dict(surface="DruckerPrager", hardening="Voce", dim=2), dict(surface="VonMises", hardening="Linear", rate="Norton", dim=2, planeStress=True),
@@ -1006,7 +1008,7 @@ def _all_cfgs():
         for hard in (None, "Linear", "Voce", "Swift"):
             for kin in (None, "Prager", "AF", "Chaboche"):
                 for rate in (None, "Norton"):
-                    for br in (0, 1):
+                    for br in (0, 1, 2):
                         for dim, ps in ((3, False), (2, False), (2, True)):
                             out.append(dict(surface=surf, hardening=hard, kinematic=kin, rate=rate, branches=br, dim=dim, planeStress=ps))
     return out
